@@ -625,6 +625,12 @@ def int_array(data):
 
 def typed_empty(shape, dtype=None, fill=None):
     """numpy.empty/zeros for modules under SX: honours an integer dtype request (truncating buffer)"""
+    if _CUR is None:
+        # concrete replay: the real thing
+        return numpy.empty(shape, dtype=dtype) if fill is None else numpy.full(shape, fill, dtype=dtype if dtype is not None else float)
+    if dtype is not None and numpy.dtype(dtype).kind == "b":
+        # a mask buffer: real booleans (a mask is used as an index; symbols never live in it)
+        return numpy.full(shape, bool(fill) if fill is not None else False, dtype=bool)
     a = numpy.empty(shape, dtype=object)
     if fill is not None:
         a[...] = fill
@@ -648,6 +654,9 @@ class TypedNumpy:
 
     def ones(self, shape, dtype=None, **kw):
         return typed_empty(shape, dtype, fill=1)
+
+    def full(self, shape, fill_value, dtype=None, **kw):
+        return typed_empty(shape, dtype, fill=fill_value)
 
 
 def sarr(data):
@@ -747,6 +756,8 @@ class Engine:
         self.abstract_squares = False  # x**2 -> fresh s >= 0, order-isomorphic to x on the non-negative bases seen
         self.abstract_division = False  # a/b (symbolic b) -> fresh q with sign/range facts only
         self.fork_abs = False  # abs() as an If-term (False) or as a fork (True: simpler NRA queries)
+        self.len_bound = None  # (length term, max): fallback when the code under test takes len() of a symbolic-length array
+        self.remarks = set()  # degradations of the claim met during the run (reported in the evidence)
         self._reset_path([])
 
     # -- path state
@@ -763,6 +774,7 @@ class Engine:
         self.nfresh = 0
         self.pc = []
         self.notes = {}
+        self._len_bound_used = False
 
     def _check(self, *extra, kind="branch"):
         t0 = time.time()
